@@ -72,6 +72,62 @@ def _stored_locals(fn: ast.FunctionDef) -> list[str]:
     return out
 
 
+def _stmt_sigs(fn: ast.AST) -> list[str]:
+    """One line per statement of a function as written (docstrings apart): simple statements in full, compound statements by their header.  Used to measure how much
+    of a function differs from the reference tree (see report.Context: findings in heavily restated functions are not reported as violations)."""
+    out: list[str] = []
+    for st in ast.walk(fn):
+        if not isinstance(st, (ast.stmt, ast.ExceptHandler)) or st is fn:
+            continue
+        if isinstance(st, ast.Expr) and isinstance(st.value, ast.Constant) and isinstance(st.value.value, str):
+            continue
+        if isinstance(st, ast.For):
+            out.append(f"for {ast.unparse(st.target)} in {ast.unparse(st.iter)}")
+        elif isinstance(st, ast.While):
+            out.append(f"while {ast.unparse(st.test)}")
+        elif isinstance(st, ast.If):
+            out.append(f"if {ast.unparse(st.test)}")
+        elif isinstance(st, ast.With):
+            out.append("with " + ", ".join(ast.unparse(i) for i in st.items))
+        elif isinstance(st, ast.Try):
+            out.append("try")
+        elif isinstance(st, ast.ExceptHandler):
+            out.append(f"except {ast.unparse(st.type) if st.type is not None else ''}")
+        elif isinstance(st, (ast.FunctionDef, ast.AsyncFunctionDef, ast.ClassDef)):
+            out.append(f"def {st.name}")
+        elif isinstance(st, ast.Match):
+            out.append(f"match {ast.unparse(st.subject)}")
+        else:
+            out.append(ast.unparse(st))
+    return sorted(out)
+
+
+def restated_statements(mods: dict[str, Module], inv: dict) -> dict[str, int]:
+    """`module:qualname` -> number of statements by which the function (as written, before any canonicalisation) differs from the reference tree, the statements
+    of new helpers it names counted in.  Functions that do not exist in the reference are not listed."""
+    from collections import Counter
+    out: dict[str, int] = {}
+    for mod in mods.values():
+        old = inv["modules"].get(mod.name)
+        if old is None or "stmts" not in old:
+            continue
+        funcs = {q: fn for q, _, fn in _functions_of(mod)}
+        new_helpers = {q: fn for q, fn in funcs.items() if q not in old["stmts"]}
+        for q, fn in funcs.items():
+            ref = old["stmts"].get(q)
+            if ref is None:
+                continue
+            a, b = Counter(ref), Counter(_stmt_sigs(fn))
+            d = sum(((a - b) + (b - a)).values())
+            names = {n.attr for n in ast.walk(fn) if isinstance(n, ast.Attribute)} | {n.id for n in ast.walk(fn) if isinstance(n, ast.Name)}
+            for hq, hfn in new_helpers.items():
+                if hq.split(".")[-1] in names and hfn is not fn:
+                    d += len(_stmt_sigs(hfn))
+            if d:
+                out[f"{mod.name}:{q}"] = d
+    return out
+
+
 def _tokens(fn: ast.AST) -> list[str]:
     """Identifier / literal vocabulary of a function body: what it talks about, regardless of its own name and layout."""
     out = set()
@@ -156,6 +212,7 @@ def inventory_of(mods: dict[str, Module]) -> dict:
         m: dict = {"functions": {}, "classes": {}, "locals": {q: _stored_locals(fn) for q, _, fn in _functions_of(mod)},
                    "local_defs": {q: _first_defs(fn) for q, _, fn in _functions_of(mod)},
                    "tokens": {q: _tokens(fn) for q, _, fn in _functions_of(mod)},
+                   "stmts": {q: _stmt_sigs(fn) for q, _, fn in _functions_of(mod)},
                    "constants": [t.id for node in mod.tree.body if isinstance(node, ast.Assign) for t in node.targets if isinstance(t, ast.Name)]}
         for node in mod.tree.body:
             if isinstance(node, FuncNode):
@@ -3601,6 +3658,7 @@ def canonicalise(mods: dict[str, Module]) -> dict:
     inv = load_inventory()
     if inv is None:
         return {"inventory": "absent"}
+    restated = restated_statements(mods, inv)
     ren = compute_renames(mods, inv)
     apply_renames(mods, ren)
     loc_log: list[str] = []
@@ -3673,7 +3731,7 @@ def canonicalise(mods: dict[str, Module]) -> dict:
                     if isinstance(x, FuncNode) and (oc is None or x.name not in oc["methods"]):
                         new_functions.append(f"{mod.name}:{node.name}.{x.name}")
     return {"renamed_back": {k: v for k, v in sorted(ren.items())}, "locals": loc_log[:40], "inlined": inl.log[:40], "substituted": fwd_log[:60],
-            "reraising_try": list(RERAISING_TRY),
+            "reraising_try": list(RERAISING_TRY), "restated": restated,
             "new_helpers": sorted(set(new_functions) | {f"{k[0]}:{(k[1] + '.') if k[1] else ''}{k[2]}" for k in inl.helpers})}
 
 
